@@ -546,6 +546,10 @@ func c05workers(c *Ctx) {
 					added++
 				case isWG(p, e, "Done"):
 					added--
+				case e.Kind == px.EvCall && e.Call.IsDyn() && !e.InGo && isUserFn(e.Call.FnSym, in.userName):
+					// the dispatcher runs the user function itself ("caller runs" when all slots are busy):
+					// that invocation holds no slot, so n workers + the dispatcher = n+1 run at once (seed r3-C05-2)
+					return false, "the user function is also run by the dispatching goroutine itself, outside any slot: with all slots taken one more invocation runs than the configured number of workers"
 				default:
 					if w := spawnedClosure(e); w != nil {
 						worker = w
@@ -663,56 +667,7 @@ func c05workers(c *Ctx) {
 		c.R.Check(ok, in.rule, in.pkg+"."+in.fn+"#capacity", "the worker semaphore is a buffered channel whose capacity is the configured worker count", posOf(c, f), "no make(chan struct{}, <workers>) found", nil, 1)
 	}
 	for _, pkg := range []string{"core/mr", "core/fx"} {
-		f := c.fn("C05.R6", pkg, "WithWorkers")
-		if f == nil {
-			continue
-		}
-		cl := c.closure("C05.R6", f, "option closure", func(a *ssa.Function) bool { return true })
-		if cl == nil {
-			continue
-		}
-		minW := constVal(c, pkg, "minWorkers")
-		ps := c.paths("C05.R6", cl, px.Config{})
-		c.forall("C05.R6", pkg+".WithWorkers", "the worker count is clamped to at least minWorkers ≥ 1", cl, ps, func(p *px.Path) (bool, string) {
-			if minW == nil || constant.Sign(minW) <= 0 {
-				return false, "minWorkers is not ≥ 1"
-			}
-			var st *px.Event
-			for _, e := range p.All(px.KindIs(px.EvStore)) {
-				if px.FieldAddrIs(e.Addr, "workers", nil) {
-					st = e
-				}
-			}
-			if st == nil {
-				return false, "workers not set"
-			}
-			if a := p.Abs(st.Val); a.K == px.ConstV {
-				if !constant.Compare(a.C, token.EQL, minW) {
-					return false, "clamped to something other than minWorkers"
-				}
-				return true, ""
-			}
-			// stores the requested value: must be on the branch workers >= minWorkers
-			okb := false
-			for _, e := range p.All(px.KindIs(px.EvBranch)) {
-				if e.Cond.Kind != px.KBinOp {
-					continue
-				}
-				x, y, op := e.Cond.X, e.Cond.Y, e.Cond.Op
-				if isConstSym(x) {
-					x, y, op = y, x, flip(op)
-				}
-				if x.Strip(false) == st.Val.Strip(false) && p.Abs(y).K == px.ConstV && constant.Compare(p.Abs(y).C, token.EQL, minW) {
-					if (op == token.LSS && !e.Taken) || (op == token.GEQ && e.Taken) {
-						okb = true
-					}
-				}
-			}
-			if !okb {
-				return false, "the requested worker count is stored without the ≥ minWorkers test"
-			}
-			return true, ""
-		})
+		workersClamp(c, "C05.R6", pkg)
 	}
 	c.R.Min("C05.R4", 6, "Schedule acquire/release, ScheduleImmediately acquire/release/busy, NewTaskRunner")
 	c.R.Min("C05.R6", 8, "executeMappers and walkLimited acquire/release/capacity, WithWorkers ×2")
@@ -917,4 +872,85 @@ func c05options(c *Ctx) {
 	if n < 3 {
 		c.R.Undecided(rule, "option constructors", "newOptions/buildOptions of fx and mr are found", fmt.Sprint(n))
 	}
+}
+
+// isUserFn: the called function value is the parameter of that name (of the analysed function or
+// of an enclosing one, reaching a closure as a free variable).
+func isUserFn(s *px.Sym, name string) bool {
+	for d := 0; s != nil && d < 6; d++ {
+		s = s.Strip(false)
+		if s == nil {
+			return false
+		}
+		switch v := s.V.(type) {
+		case *ssa.Parameter:
+			return v.Name() == name
+		case *ssa.FreeVar:
+			return v.Name() == name
+		}
+		if s.Kind == px.KLoad || s.Kind == px.KFreeVar {
+			if s.X == nil {
+				return false
+			}
+			s = s.X
+			continue
+		}
+		return false
+	}
+	return false
+}
+
+// workersClamp: the WithWorkers option of pkg sets the worker count on every path — to the requested
+// value when that is at least minWorkers, else to minWorkers (≥ 1).
+func workersClamp(c *Ctx, rule, pkg string) {
+	f := c.fn(rule, pkg, "WithWorkers")
+	if f == nil {
+		return
+	}
+	cl := c.closure(rule, f, "option closure", func(a *ssa.Function) bool { return true })
+	if cl == nil {
+		return
+	}
+	minW := constVal(c, pkg, "minWorkers")
+	ps := c.paths(rule, cl, px.Config{})
+	c.forall(rule, pkg+".WithWorkers", "the worker count is clamped to at least minWorkers ≥ 1", cl, ps, func(p *px.Path) (bool, string) {
+		if minW == nil || constant.Sign(minW) <= 0 {
+			return false, "minWorkers is not ≥ 1"
+		}
+		var st *px.Event
+		for _, e := range p.All(px.KindIs(px.EvStore)) {
+			if px.FieldAddrIs(e.Addr, "workers", nil) {
+				st = e
+			}
+		}
+		if st == nil {
+			return false, "there is a path on which the option leaves the worker count as it was (the constructor's default, not the requested or the minimum count): WithWorkers(1) then runs with the default number of workers"
+		}
+		if a := p.Abs(st.Val); a.K == px.ConstV {
+			if !constant.Compare(a.C, token.EQL, minW) {
+				return false, "clamped to something other than minWorkers"
+			}
+			return true, ""
+		}
+		// stores the requested value: must be on the branch workers >= minWorkers
+		okb := false
+		for _, e := range p.All(px.KindIs(px.EvBranch)) {
+			if e.Cond.Kind != px.KBinOp {
+				continue
+			}
+			x, y, op := e.Cond.X, e.Cond.Y, e.Cond.Op
+			if isConstSym(x) {
+				x, y, op = y, x, flip(op)
+			}
+			if x.Strip(false) == st.Val.Strip(false) && p.Abs(y).K == px.ConstV && constant.Compare(p.Abs(y).C, token.EQL, minW) {
+				if (op == token.LSS && !e.Taken) || (op == token.GEQ && e.Taken) || (op == token.GTR && e.Taken) || (op == token.LEQ && !e.Taken) {
+					okb = true
+				}
+			}
+		}
+		if !okb {
+			return false, "the requested worker count is stored without the ≥ minWorkers test"
+		}
+		return true, ""
+	})
 }
